@@ -463,6 +463,51 @@ pub fn join(depth: usize) -> Value {
             }
         }
     }
+    // composite join keys: (a, b) = (c, d) with NULLs in either part (a partly NULL key matches nothing)
+    {
+        let vals = [None, Some(1i64), Some(2)];
+        let pairs: Vec<(V, V)> = vals.iter().flat_map(|x| vals.iter().map(move |y| (*x, *y))).collect();
+        let e = Engine::Mem;
+        for (pi, p1) in pairs.iter().enumerate() {
+            for (qi, q1) in pairs.iter().enumerate() {
+                if depth < 2 && (pi * 9 + qi) % 2 != 0 { continue; }
+                // two rows per side: the enumerated pair and a fixed partly-NULL pair
+                let l: Vec<Row> = vec![vec![p1.0, p1.1, Some(10)], vec![Some(1), None, Some(11)]];
+                let r: Vec<Row> = vec![vec![q1.0, q1.1, Some(20)], vec![Some(1), None, Some(21)]];
+                let mut sqls = vec!["create table l(a int, b int, i int)".to_string(), "create table r(c int, d int, j int)".to_string()];
+                for x in &l { sqls.push(insert("l", &[x.clone()])); }
+                for y in &r { sqls.push(insert("r", &[y.clone()])); }
+                let q0 = sqls.len();
+                let eq2 = |x: &Row, y: &Row| match (x[0], y[0], x[1], y[1]) { (Some(a), Some(c), Some(b), Some(d)) => Some(a == c && b == d), (Some(a), Some(c), _, _) if a != c => Some(false), (_, _, Some(b), Some(d)) if b != d => Some(false), _ => None };
+                let oracle = |kind: &str| -> Vec<Vec<String>> {
+                    let mut out: Vec<Row> = vec![];
+                    let mut rm = vec![false; r.len()];
+                    for x in &l { let mut any = false; for (j, y) in r.iter().enumerate() { if eq2(x, y) == Some(true) { any = true; rm[j] = true; out.push([x.clone(), y.clone()].concat()); } }
+                        if !any && (kind == "left" || kind == "full") { out.push([x.clone(), vec![None, None, None]].concat()); } }
+                    if kind == "right" || kind == "full" { for (j, y) in r.iter().enumerate() { if !rm[j] { out.push([vec![None, None, None], y.clone()].concat()); } } }
+                    sorted(strs(&out))
+                };
+                let kinds = ["inner", "left", "right", "full"];
+                for kind in kinds { sqls.push(format!("select a, b, i, c, d, j from l {kind} join r on a = c and b = d")); }
+                sqls.push("select a, b, i from l where exists (select * from r where c = a and d = b)".into());
+                tried += 5;
+                let outs = match run(e, &sqls, &[]) { Ok(o) => o, Err(err) => return found_raw(tried, e, &sqls, &[], sqls.len() - 1, "the session to run".into(), err) };
+                for (j, kind) in kinds.iter().enumerate() {
+                    let want = oracle(kind);
+                    match &outs[q0 + j] {
+                        Ok(got) if sorted(got.clone()) == want => {}
+                        Ok(got) => { if let Some(v) = found(tried, e, &sqls, &[], q0 + j, format!("{want:?}"), format!("{:?}", sorted(got.clone()))) { return v; } },
+                        Err(err) => { if let Some(v) = found(tried, e, &sqls, &[], q0 + j, format!("{want:?}"), format!("error: {err}")) { return v; } },
+                    }
+                }
+                let want_semi = sorted(strs(&l.iter().filter(|x| r.iter().any(|y| eq2(x, y) == Some(true))).cloned().collect::<Vec<_>>()));
+                match &outs[q0 + 4] {
+                    Ok(got) if sorted(got.clone()) == want_semi => {}
+                    other => { if let Some(v) = found(tried, e, &sqls, &[], q0 + 4, format!("{want_semi:?}"), format!("{other:?}")) { return v; } },
+                }
+            }
+        }
+    }
     // merge join: primary-key tables on the disk engine (scans ordered by key), rows spread over RowSets
     let e = Engine::Disk { block: 24, rowset: 1 };
     let universe = 4 + depth.min(1);
